@@ -304,7 +304,9 @@ func TestTwoBackends(t *testing.T) {
 		for _, w := range dB.wss {
 			bCommitted = bCommitted || w.committed
 		}
-		both := len(dB.log) > 0
+		// B counts as submitted to when something happened on it beyond a mere look at its destination
+		// while A's failure explains the call's error
+		both := len(dB.log) > 0 && !(onlyLookedAt(dB.log) && !aCommitted && err != nil)
 		// Which back end the call's error belongs to. The code under test stops at the first back
 		// end that fails; an implementation that goes on to B all the same is not what the
 		// statement is about, so it is only counted: A's failure then explains the error.
